@@ -186,3 +186,28 @@ Lemma T_C13_arrival_monotone_call_level : forall (pd_ns : Z -> Z), (forall a b, 
   rec_le r (fold_left (fun r c => set_last_arr r (fst c) (snd c)) calls r).
 Proof. intros pd_ns mono calls t0 r R F S. exact (proj2 (arrival_run pd_ns mono calls r t0 R F S)). Qed.
 
+
+(* refresh outcomes incl. failures: with nobody dropping entries the system is the real one *)
+Lemma T_C13_refresher_failure : forall (pd : nat -> Z) n es1 es2 t,
+  let s1 := fold_left (step_rdelete pd (fun _ => false)) es1 (init_sys n) in
+  let s2 := fold_left (step_rdelete pd (fun _ => false)) es2 s1 in
+  cell (step pd s1 (EvFail t)) = cell s1 /\
+  (lowres s1 <> None -> lowres s2 <> None) /\
+  ole (lowres s1) (lowres s2) /\
+  (forall v, lowres s2 = Some v -> exists i, (i < issued s2)%nat /\ v = pd i).
+Proof.
+  intros pd n es1 es2 t.
+  assert (E : forall es s, fold_left (step_rdelete pd (fun _ => false)) es s = run pd s es).
+  { induction es as [|e es IH]; intros s; cbn; auto. rewrite step_rdelete_none. apply IH. }
+  cbv zeta. rewrite !E. split; [apply fail_keeps_cell|].
+  destruct (T_C13_fresh_scope pd n es1 es2) as [_ [A [B [C _]]]]. auto.
+Qed.
+
+Lemma T_C13_commit_wait_registrations : forall regs max_sleep_ns fuel script,
+  (0 <= cw_bound regs /\ (forall r, In r regs -> r <= cw_bound regs) /\ (cw_bound regs = 0 \/ In (cw_bound regs) regs)) /\
+  (forall ts c, commit_wait_regs regs max_sleep_ns fuel script = (CwOk ts, c) ->
+     (forall r, In r regs -> r < ts) /\ 0 < ts /\ In (Some ts) script).
+Proof.
+  intros regs ms fuel script. split; [exact (set_cw_fold regs 0)|].
+  intros ts c H. exact (commit_wait_regs_ok regs ms fuel script ts c H).
+Qed.
